@@ -11,6 +11,8 @@ pub struct Pools {
     pub general: Vec<char>,
     pub simple: Vec<char>,
     pub id_valid: Vec<char>,
+    /// characters from the cased/composing/width/rtl pools that survive width mapping + IdentifierClass
+    pub id_friendly: Vec<char>,
     pub ff_valid: Vec<char>,
     pub cased: Vec<char>,
     pub zs: Vec<char>,
@@ -194,8 +196,14 @@ fn build_pools() -> Pools {
             ff_valid.push(*c);
         }
     }
+    let mut id_friendly: Vec<char> = Vec::new();
+    for c in simple.iter().chain(cased.iter()).chain(norm_pool.iter()).chain(width.iter()).chain(rtl.iter()).chain(general.iter()) {
+        if d.id(d.width16(*c) as u32) == Dpv::PValid && !id_friendly.contains(c) {
+            id_friendly.push(*c);
+        }
+    }
     Pools {
-        general, simple, id_valid, ff_valid, cased, zs, nfkc_space, compat_ff, width, ctx, norm: norm_pool, rtl,
+        general, simple, id_friendly, id_valid, ff_valid, cased, zs, nfkc_space, compat_ff, width, ctx, norm: norm_pool, rtl,
         by_bidi16, by_id, by_ff, by_gc63, by_jt, virama,
     }
 }
@@ -264,7 +272,7 @@ pub fn lens(c: BoxedStrategy<char>) -> BoxedStrategy<String> {
 /// Strings that are mostly valid for the given pool, with 0..=2 risky characters injected
 pub fn valid_biased(valid: &'static [char], risky: BoxedStrategy<char>) -> BoxedStrategy<String> {
     let base = prop_oneof![70 => vec(pick(valid), 1..=8), 25 => vec(pick(valid), 1..=20), 5 => vec(pick(valid), 1..=80)];
-    (base, vec((risky, 0u32..=u32::MAX), 0..=2))
+    (base, prop_oneof![45 => vec((risky.clone(), 0u32..=u32::MAX), 0..=0), 35 => vec((risky.clone(), 0u32..=u32::MAX), 1..=1), 20 => vec((risky, 0u32..=u32::MAX), 2..=2)])
         .prop_map(|(mut b, inj)| {
             for (c, pos) in inj {
                 let at = ((pos as u64 * (b.len() as u64 + 1)) >> 32) as usize;
